@@ -2106,7 +2106,7 @@ class PrepareAst:
             def default_converter(x):
                 stmt = self.apply(x)
                 bound_stmt.append(stmt)
-                return stmt
+                return stmt.result()
 
             self.set_local(
                 inp.name,
@@ -2134,7 +2134,7 @@ class PrepareAst:
             def default_converter(x):
                 stmt = self.apply(x)
                 bound_stmt.append(stmt)
-                return stmt
+                return stmt.result()
 
             return out.Value(
                 FunctionDefinition.from_ast_fn(
